@@ -4,6 +4,7 @@
 # nor /verif/evidence is touched; the worktree is removed at the end.  (tools/try_seed.sh does the same thing in /repo itself.)
 set -u
 MX=${MX_DIR:-/tmp/mx}
+V=$(dirname $(dirname $(realpath $0)))      # the copy of the machinery this script belongs to (a snapshot may be used while /verif is being edited)
 WT=$MX/wt
 mkdir -p $MX/ev $MX/rp $MX/scratch
 git -C /repo worktree remove --force $WT 2>/dev/null
@@ -14,7 +15,7 @@ for S in $SEEDS; do
   P=${S:0:3}
   git -C $WT reset -q --hard HEAD; git -C $WT clean -fdq
   if ! git -C $WT apply /verif/seeded/$S/patch.diff 2>/dev/null; then echo "$S: patch does not apply"; continue; fi
-  OUT=$(cd /verif && timeout 1800 python3-vt checks/check.py $P --tier quick 2>&1 | grep -v '^KNOWN-FINDING'); RC=$?
+  OUT=$(cd $V && timeout 1800 python3-vt checks/check.py $P --tier quick 2>&1 | grep -v '^KNOWN-FINDING'); RC=$?
   python3 - "$S" "$P" "$RC" <<PY
 import json, re, sys
 s, p, rc = sys.argv[1:4]
